@@ -5,7 +5,7 @@ import vlib
 
 PID = "C11"
 NAMES = ["getlbastatus", "inquiry_std", "inquiry_vpd", "modesense6", "modesense10", "prin_keys", "prin_resv", "prin_caps", "prin_full",
-         "readcapacity10", "readcapacity16", "readcd", "readdiscinfo", "readelementstatus", "reportluns", "reportpriority", "rtpg", "sense"]
+         "readcapacity10", "readcapacity16", "readcd", "readcd_bare", "readcd_userdata", "readcd_rawsub", "readcd_m2", "readdiscinfo", "readelementstatus", "reportluns", "reportpriority", "rtpg", "sense"]
 VPD = [0x00, 0x80, 0x83, 0x86, 0x89, 0xB0, 0xB1, 0xB2, 0xB3]
 
 
